@@ -1,5 +1,6 @@
 """C16 - naken_asm never crashes, hangs or corrupts memory, whatever the source text (DESIGN 4, C16)."""
 from vlib import Group
+from shared_groups import tokens_get_group
 import C05 as _c05
 import C04 as _c04
 
@@ -9,9 +10,7 @@ GROUPS = [
     Group(name="C16/macros_push_define", unity="C16/u_macros.cpp", entry="h_push_define", functions=[("macros_push_define", M, "harness (loop-free, every stack depth)")], unwind=3, checks=CH, timeout=300),
     Group(name="C16/macros_expand_params.collect", unity="C16/u_macros.cpp", entry="h_expand_collect", functions=[("macros_expand_params (argument collection)", M, "harness+loop-contracts, unbounded character stream")],
           loops="C16/expand.loops.json", expected_loops=2, unwind=3, checks=CH, timeout=600),
-    Group(name="C16/tokens_get", unity="C16/u_tokens.cpp", entry="h_tokens_get",
-          functions=[("tokens_get", "core/tokens.cpp", "harness+7 loop-contracts, unbounded character stream"), ("tokens_get_char", "core/tokens.cpp", "loop-contract"), ("tokens_unget_char", "core/tokens.cpp", "real callee"), ("process_escape", "core/tokens.cpp", "real callee")],
-          loops="C16/tokens.loops.json", expected_loops=7, unwind=20, checks=CH[:2], timeout=2400, mem_gb=30, defines=["TLEN=16"], subst={"TLEN": 16}),
+    tokens_get_group(),
     Group(name="C16/tokens_get.len512", unity="C16/u_tokens.cpp", entry="h_tokens_get",
           functions=[("tokens_get", "core/tokens.cpp", "harness+7 loop-contracts, unbounded character stream, the real TOKENLEN"), ("tokens_get_char", "core/tokens.cpp", "loop-contract")],
           loops="C16/tokens.loops.json", expected_loops=7, unwind=515, checks=CH[:2], timeout=3000, mem_gb=40, tier="thorough", defines=["TLEN=512"], subst={"TLEN": 512}),
